@@ -615,7 +615,17 @@ def spec_iff(eng, args, kwargs, st):
 
 
 def spec_ite(eng, args, kwargs, st):
-    yield eng.merge_val(to_bool(args[0]), args[1], args[2]), st
+    c, a, b = to_bool(args[0]), args[1], args[2]
+    if isinstance(a, Ref) and isinstance(b, Ref):
+        ao, bo = st.heap[a.oid], st.heap[b.oid]
+        if isinstance(ao, ArrV) and isinstance(bo, ArrV) and ao.ndim == bo.ndim:
+            if isinstance(c, bool):
+                yield (a if c else b), st
+                return
+            shape = tuple(ite(c, x, y) for x, y in zip(ao.shape, bo.shape))
+            yield new_ref(st, ArrV(shape, lambda *i, ao=ao, bo=bo: ite(c, ao.at(*i), bo.at(*i)), ao.dtype)), st
+            return
+    yield eng.merge_val(c, a, b), st
 
 
 def clause(kind):
